@@ -395,8 +395,13 @@ impl ScionUdpPacketView {
     }
 
     /// Converts a UDP packet view into a raw SCION packet view.
+    ///
+    /// # Safety
+    /// The caller must ensure that the buffer is not mutated in a way that would invalidate the
+    /// view. e.g. by changing the fields that have an effect on `has_required_size` (the raw view
+    /// hands out `payload_mut()`, which covers the UDP length field read by [`Self::udp`]).
     #[inline]
-    pub fn as_raw_mut(&mut self) -> &mut ScionRawPacketView {
+    pub unsafe fn as_raw_mut(&mut self) -> &mut ScionRawPacketView {
         // Safety: The buffer is large enough for a SCION raw packet.
         unsafe { ScionRawPacketView::from_mut_slice_unchecked(self.as_slice_mut()) }
     }
@@ -471,12 +476,6 @@ impl<'a> From<&'a ScionUdpPacketView> for &'a ScionRawPacketView {
     #[inline]
     fn from(value: &'a ScionUdpPacketView) -> Self {
         value.as_raw()
-    }
-}
-impl<'a> From<&'a mut ScionUdpPacketView> for &'a mut ScionRawPacketView {
-    #[inline]
-    fn from(value: &'a mut ScionUdpPacketView) -> Self {
-        value.as_raw_mut()
     }
 }
 impl From<Box<ScionUdpPacketView>> for Box<ScionRawPacketView> {
